@@ -183,4 +183,14 @@ def cases():
             {"name": "ext_core", "srcdir": "${build-dir}/dl/ext/src/core", "sources": ["core.c", "sched.c"], "depends": ["ext"]},
             {"name": "ext_same", "srcdir": "build/dl/ext", "sources": ["same.c"], "depends": ["ext"]}]
     out.append((dlbase(mods, [{"name": "app", "sources": ["main.c"], "depends": ["ext_core", "ext_same"]}]), {}))
+    # 30: a chain of four contexts declared child-first, only the top one declares var_options; the
+    #     middle ones have none of their own when their children are looked at in file order
+    f = {"laze-project.yml": [{"contexts": [{"name": "soc", "parent": "board", "env": {"CFLAGS": ["s"], "LIBS": ["ls"]}},
+                                            {"name": "board", "parent": "family", "env": {"CFLAGS": ["b"], "LIBS": ["lb"]}},
+                                            {"name": "family", "parent": "style", "env": {"CFLAGS": ["f"]}},
+                                            {"name": "style", "var_options": {"CFLAGS": {"prefix": "-D", "joiner": ","}, "LIBS": {"prefix": "-l", "start": "<", "end": ">"}}},
+                                            {"name": "default", "rules": RULES, "env": {"bindir": "${build-dir}/${builder}/${app}", "CFLAGS": ["d"]}}],
+                               "builders": [{"name": "b0", "parent": "soc"}, {"name": "b1", "parent": "board", "var_options": {"LIBS": {"joiner": ":"}}}],
+                               "apps": [{"name": "app", "sources": ["main.c"]}]}]}
+    out.append((f, {}))
     return out
